@@ -98,6 +98,15 @@ def _clean_env() -> dict[str, str]:
     return env
 
 
+def py_env() -> dict[str, str]:
+    """Environment for a subprocess that imports refurb (honours VERIF_REPO, see refurb_cli)."""
+    env = _clean_env()
+    env["PYTHONDONTWRITEBYTECODE"] = "1"
+    if REPO != Path("/repo"):
+        env["PYTHONPATH"] = str(REPO)
+    return env
+
+
 def lake(*args: str, timeout: int = 1800) -> tuple[int, str]:
     p = subprocess.run(
         ["lake", *args], cwd=LEAN, capture_output=True, text=True, timeout=timeout, env=_clean_env()
@@ -312,6 +321,9 @@ def refurb_cli(
 ) -> tuple[int, str, str]:
     env = _clean_env()
     env["PYTHONDONTWRITEBYTECODE"] = "1"
+    if REPO != Path("/repo"):
+        # development aid: run the checks against a scratch worktree of refurb (mutation testing)
+        env["PYTHONPATH"] = str(REPO)
     if env_extra:
         env.update(env_extra)
     p = subprocess.run(
